@@ -236,3 +236,14 @@ def run(rep, facts, tier):
         c11.wrapper_primitives(rep, cfg)
     c04.ideal_rule(rep, M)
     c05.ladder(rep, M)
+    # the two builds' field primitives are different programs (arkworks Fp wrappers vs fiat wrappers): "byte-identical arithmetic" is decided the
+    # only way a static argument can - each wrapper layer against the same reference ring operations (C10's instances, both builds) - and the
+    # observers (equality, hashing, identity predicates) against the same reference predicates (C08's instances, both builds).
+    from . import c10, c08
+    from .common import import_rules
+    two = {k: v for k, v in facts.items() if k in ("A", "M")}
+    nf = import_rules(rep, c10, two, tier, "FIELD")
+    no = import_rules(rep, c08, two, tier, "OBSERVE", pred=lambda k: not k.startswith("CONST/"))
+    G.check_select(rep, M)
+    rep.floor("field_layer_instances", nf, 400)
+    rep.floor("observer_instances", no, 12)
